@@ -126,7 +126,7 @@ Proof. intros P. unfold build. apply insert_all_perm. apply Permutation_map. exa
 
 (** ** the same content in another member order, at every nesting level *)
 Inductive tperm : jv -> jv -> Prop :=
-| tp_leaf i ps : tperm (JLeaf i ps) (JLeaf i ps)
+| tp_leaf i ps rs : tperm (JLeaf i ps rs) (JLeaf i ps rs)
 | tp_null : tperm JNull JNull
 | tp_obj ms ms' ms'' : mrel ms ms' -> Permutation ms' ms'' -> tperm (JObj ms) (JObj ms'')
 with mrel : list (str * jv) -> list (str * jv) -> Prop :=
@@ -162,29 +162,26 @@ Proof.
   induction 1 as [|x y a b H _ IH]; cbn [build_all]; [reflexivity|]. rewrite (build_tperm _ _ H), IH. reflexivity.
 Qed.
 
-(** every observable is computed from the sorted maps only *)
-Definition from_sorted (o : option (list smap)) : out + err :=
-  match o with None => inr EDuplicateKey | Some maps => run_sorted maps end.
-
-Theorem run_unit_factors files : run_unit files = from_sorted (build_all files).
+(** every observable - including which key a foreign-key error names - is computed from the sorted maps only *)
+Theorem run_unit_factors names files : run_unit names files = from_sorted names (build_all files).
 Proof. reflexivity. Qed.
 
-Theorem run_unit_perm a b : files_perm a b -> run_unit a = run_unit b.
+Theorem run_unit_perm names a b : files_perm a b -> run_unit names a = run_unit names b.
 Proof. intros H. rewrite !run_unit_factors, (build_all_perm _ _ H). reflexivity. Qed.
 
-Theorem tables_perm a b : files_perm a b ->
-  match run_unit a, run_unit b with
+Theorem tables_perm names a b : files_perm a b ->
+  match run_unit names a, run_unit names b with
   | inl oa, inl ob => o_tables oa = o_tables ob /\ o_lists oa = o_lists ob /\ o_warnings oa = o_warnings ob
   | inr ea, inr eb => ea = eb
   | _, _ => False
   end.
-Proof. intros H. rewrite (run_unit_perm _ _ H). destruct (run_unit b); auto. Qed.
+Proof. intros H. rewrite (run_unit_perm names _ _ H). destruct (run_unit names b); auto. Qed.
 
 (** ** the executable predicate holds of the model *)
 Lemma list_eqb_refl {A} (eqb : A -> A -> bool) : (forall x, eqb x x = true) -> forall l, list_eqb eqb l l = true.
 Proof. intros H l. induction l as [|x r IH]; cbn [list_eqb]; [reflexivity|]. rewrite H, IH. reflexivity. Qed.
 Lemma path_eqb_refl p : path_eqb p p = true.
-Proof. apply list_eqb_refl. apply str_eqb_refl. Qed.
+Proof. unfold path_eqb. induction p as [|x r IH]; [reflexivity|]. rewrite str_eqb_refl. exact IH. Qed.
 Lemma out_eqb_refl o : out_eqb o o = true.
 Proof.
   unfold out_eqb. rewrite !andb_true_iff. repeat split.
@@ -193,18 +190,35 @@ Proof.
   - apply list_eqb_refl. intros [i p|i p]; cbn; rewrite N.eqb_refl, path_eqb_refl; reflexivity.
 Qed.
 Lemma result_eqb_refl r : result_eqb r r = true.
-Proof. destruct r as [o|c]; cbn; [apply out_eqb_refl | apply N.eqb_refl]. Qed.
-
-Theorem spec_C10_model a b : files_perm a b -> spec_C10 a b (model_result a) (model_result b) = true.
 Proof.
-  intros H. unfold spec_C10, model_result. rewrite (run_unit_perm _ _ H), result_eqb_refl. apply orb_true_r.
+  destruct r as [o|[[[c l] p] t]]; cbn; [apply out_eqb_refl|]. rewrite !N.eqb_refl, !path_eqb_refl. reflexivity.
 Qed.
+
+Theorem spec_C10_model names a b : files_perm a b -> spec_C10 a b (model_result names a) (model_result names b) = true.
+Proof.
+  intros H. unfold spec_C10, model_result. rewrite (run_unit_perm names _ _ H), result_eqb_refl. apply orb_true_r.
+Qed.
+
+(** which key a foreign-key diagnostic names does not depend on the order of the members: the cycle a -> b -> a is reported
+    at "a" whichever member comes first, two references to a missing key at the smaller referring key *)
+Definition k_a : str := [97]. Definition k_b : str := [98]. Definition k_n : str := [110].
+Example fk_cycle_named_key :
+  run_unit [[101; 110]] [[(k_a, JLeaf 1 [] [[k_b]]); (k_b, JLeaf 2 [] [[k_a]])]] = inr (ERecursiveFK 0 [k_a]) /\
+  run_unit [[101; 110]] [[(k_b, JLeaf 2 [] [[k_a]]); (k_a, JLeaf 1 [] [[k_b]])]] = inr (ERecursiveFK 0 [k_a]).
+Proof. split; vm_compute; reflexivity. Qed.
+Example fk_missing_named_key :
+  run_unit [[101; 110]] [[(k_b, JLeaf 2 [] [[k_n]]); (k_a, JLeaf 1 [] [[k_n]])]] = inr (EMissingFK 0 [k_a] [k_n]).
+Proof. vm_compute. reflexivity. Qed.
+(** the registered set is walked by locale NAME: with locales [fr (default); en] the error is reported for "en" *)
+Example fk_locale_order :
+  run_unit [[102; 114]; [101; 110]] [[(k_a, JLeaf 1 [] [[k_a]])]; [(k_a, JLeaf 1 [] [[k_a]])]] = inr (ERecursiveFK 1 [k_a]).
+Proof. vm_compute. reflexivity. Qed.
 
 (** ** the code before the repair: two members whose names differ only by surrounding whitespace collapse into one key and
     the later one wins, so the result depends on the member order although no name is duplicated *)
 Definition w_a : str := [97].            (* "a" *)
 Definition w_sp_a : str := [32; 97].     (* " a" *)
-Definition w_members : list (str * jv) := [(w_a, JLeaf 1 [[102]]); (w_sp_a, JLeaf 2 [[115]])].
+Definition w_members : list (str * jv) := [(w_a, JLeaf 1 [[102]] []); (w_sp_a, JLeaf 2 [[115]] [])].
 
 Lemma old_model_refuted :
   NoDup (map fst w_members) /\ Permutation w_members (rev w_members) /\ build_old w_members <> build_old (rev w_members).
@@ -219,24 +233,24 @@ Proof. split; vm_compute; reflexivity. Qed.
 
 (** ** non-vacuity: a nested example *)
 Definition ex_A : list (str * jv) :=
-  [([98], JLeaf 1 [[120]; [121]]); ([97], JObj [([107], JLeaf 2 [[121]]); ([106], JNull)]); ([99], JLeaf 3 [])].
+  [([98], JLeaf 1 [[120]; [121]] []); ([97], JObj [([107], JLeaf 2 [[121]] []); ([106], JNull)]); ([99], JLeaf 3 [] [])].
 Definition ex_B : list (str * jv) :=
-  [([97], JObj [([106], JNull); ([107], JLeaf 2 [[121]])]); ([99], JLeaf 3 []); ([98], JLeaf 1 [[120]; [121]])].
+  [([97], JObj [([106], JNull); ([107], JLeaf 2 [[121]] [])]); ([99], JLeaf 3 [] []); ([98], JLeaf 1 [[120]; [121]] [])].
 Example ex_perm : tperm (JObj ex_A) (JObj ex_B).
 Proof.
-  eapply (tp_obj _ [([98], JLeaf 1 [[120]; [121]]); ([97], JObj [([106], JNull); ([107], JLeaf 2 [[121]])]); ([99], JLeaf 3 [])]).
+  eapply (tp_obj _ [([98], JLeaf 1 [[120]; [121]] []); ([97], JObj [([106], JNull); ([107], JLeaf 2 [[121]] [])]); ([99], JLeaf 3 [] [])]).
   - repeat constructor. eapply tp_obj; [repeat constructor | apply perm_swap].
   - apply Permutation_cons_append.
 Qed.
-Example ex_build : build ex_A = Some [([97], TSub [([106], TNull); ([107], TLeaf 2 [[121]])]); ([98], TLeaf 1 [[120]; [121]]); ([99], TLeaf 3 [])].
+Example ex_build : build ex_A = Some [([97], TSub [([106], TNull); ([107], TLeaf 2 [[121]] [])]); ([98], TLeaf 1 [[120]; [121]] []); ([99], TLeaf 3 [] [])].
 Proof. vm_compute. reflexivity. Qed.
 Example ex_run :
-  run_unit [ex_B; [([97], JObj [([107], JLeaf 4 [[120]])]); ([100], JLeaf 5 [])]] =
+  run_unit [[101; 110]; [102; 114]] [ex_B; [([97], JObj [([107], JLeaf 4 [[120]] [])]); ([100], JLeaf 5 [] [])]] =
   inr EExplicitDefaultInDefault.
 Proof. vm_compute. reflexivity. Qed.
 Example ex_run2 :
-  match run_unit [[([98], JLeaf 1 [[120]; [121]]); ([97], JObj [([107], JLeaf 2 [[121]])])];
-                  [([100], JLeaf 5 [[122]]); ([97], JObj [([122], JLeaf 6 [])])]] with
+  match run_unit [[101; 110]; [102; 114]] [[([98], JLeaf 1 [[120]; [121]] []); ([97], JObj [([107], JLeaf 2 [[121]] [])])];
+                  [([100], JLeaf 5 [[122]] []); ([97], JObj [([122], JLeaf 6 [] [])])]] with
   | inl o => o_tables o = [[[121]; [120]]; []] /\
              o_warnings o = [WMissing 1 [[97]; [107]]; WSurplus 1 [[97]; [122]]; WMissing 1 [[98]]; WSurplus 1 [[100]]]
   | inr _ => False
